@@ -135,6 +135,45 @@ CLAIMED = {
         "design_ref": "DESIGN.md 3.2 QEFFECT",
         "note": "First/second-law balances, COP relations, saturation pressures and the duties carried by the emitted streams come from CoolProp numerics and are NOT decided.",
     },
+    "C02": {
+        "category": "other",
+        "technique": "static analysis: interprocedural witness-value analysis of index / slice-start expressions (negative wrap-around), pairing rules on the generation/use "
+                     "matching, same-source rule for the site's hot/cold targets, accumulator discipline of the zone summation, argument/parameter name agreement",
+        "text": "Decides necessary bookkeeping conditions of the first-law balance of every record: the cold-side search window cannot wrap around when the pinch is the first "
+                "row (the defect that zeroed total-site Qc), generation/use matching removes one common min()-bounded duty from both sides, the total-site Qh and Qc are the two "
+                "ends of one cascade column, every zone total is initialised once and fed exactly once per sub-zone from the same-named attribute, and target values are not "
+                "permuted on their way into the record.",
+        "design_ref": "DESIGN.md 3.2 WRAP, PAIR / ACC",
+        "note": "The balance identity itself (Qh - Qc = cold duty - hot duty, Qr, non-negativity) is numeric and NOT decided; these are necessary structural conditions only. "
+                "WRAP reports only witnessed negative values; index sites without a witness are counted as undecided in the evidence.",
+    },
+    "C03": {
+        "category": "other",
+        "technique": "static analysis: witness-value analysis for wrap-around of the per-side segment selection; booking rule (every assigned duty added to the running total "
+                     "in the same block, early exit tests that total); index-aligned per-utility zone sums; argument/parameter name agreement",
+        "text": "Decides that the per-side segment handed to the allocator cannot wrap, that every duty given to a utility is booked against the side's target before the next "
+                "level is sized (nothing double counted or forgotten), and that the total-process record adds each utility's zone duties index by index.",
+        "design_ref": "DESIGN.md 3.2 WRAP, PAIR / ACC",
+        "note": "Reachability of process temperatures by a utility, default-utility placement, the values of the pocket-free profile and the sums themselves are numeric and NOT decided.",
+    },
+    "C06": {
+        "category": "other",
+        "technique": "static analysis: hot/cold role flow along the def-use chain of pinch rows and temperatures (tuple pack/unpack against callee returns, positional and keyword "
+                     "arguments, record dictionaries, property getter/setter fields, boolean side flags), roles read from identifiers",
+        "text": "Decides that hot and cold pinch are never swapped between detection (pinch_idx), conversion to temperatures, the entry functions, the target record and the "
+                "serialised temp_pinch entry - a swap is invisible to the existing suite, which never compares pinch temperatures.",
+        "design_ref": "DESIGN.md 3.2 ROLE",
+        "note": "Which rows are selected (tolerance mask, first/last zero, threshold runs) is numeric and NOT decided. Roles are read from identifiers containing hot/cold.",
+    },
+    "C09": {
+        "category": "other",
+        "technique": "static analysis: accumulator discipline of the zone summation (initialised outside the loop, fed exactly once per sub-zone with the same-named attribute "
+                     "of the sub-zone's direct-integration record), index-aligned per-utility sums, summation on deep copies, argument/parameter name agreement",
+        "text": "Decides the additivity sentence of C09: the total-process record is the sum of its zones' direct-integration targets value by value and utility by utility, "
+                "computed on private copies so the zones' own utilities are not overwritten.",
+        "design_ref": "DESIGN.md 3.2 ACC, OWN",
+        "note": "The bracketing inequalities (total site <= sum of zones, >= site direct integration) and the recovery identity are numeric and NOT decided.",
+    },
 }
 
 _NOT_BUILT = "claimed in DESIGN.md but the check is not built yet in this round"
